@@ -125,6 +125,50 @@ fn for_product(lists: &[Vec<Frag>], mut f: impl FnMut(&[&Frag])) {
     }
 }
 
+const HOLLOWABLE: [Comp; 14] = [Comp::B, Comp::I, Comp::F, Comp::N, Comp::C, Comp::E, Comp::BV, Comp::IV, Comp::FV, Comp::X, Comp::In, Comp::Out, Comp::Gr, Comp::Bind];
+
+fn hollow(m: &mut M, c: Comp) {
+    match c {
+        Comp::B => m.b.clear(),
+        Comp::I => m.i.clear(),
+        Comp::F => m.f.clear(),
+        Comp::N => m.n.clear(),
+        Comp::C => m.c.clear(),
+        Comp::E => m.e.clear(),
+        Comp::BV => m.bv.clear(),
+        Comp::IV => m.iv.clear(),
+        Comp::FV => m.fv.clear(),
+        Comp::X => m.x.clear(),
+        Comp::In => m.input.clear(),
+        Comp::Out => m.output.clear(),
+        Comp::Gr => m.graphs.clear(),
+        Comp::Bind => m.bindings.clear(),
+        _ => {}
+    }
+}
+
+/// evenly spaced selection from every operand list so that the product stays below `cap`
+fn thin_lists(lists: &[Vec<Frag>], cap: usize) -> Vec<Vec<Frag>> {
+    if product_size(lists) <= cap {
+        return lists.to_vec();
+    }
+    let k = lists.len().max(1);
+    let mut s = 2usize;
+    while (s + 1).pow(k as u32) <= cap {
+        s += 1;
+    }
+    lists
+        .iter()
+        .map(|l| {
+            if l.len() <= s {
+                l.clone()
+            } else {
+                (0..s).map(|j| l[j * (l.len() - 1) / (s - 1)].clone()).collect()
+            }
+        })
+        .collect()
+}
+
 pub fn judge_case(oracle: Oracle, name: &str, m0: &M, out: &Outcome, operand_missing: bool) -> Verdict {
     match oracle {
         Oracle::Judge => refmodel::judge(name, m0, out),
@@ -261,6 +305,33 @@ pub fn run(ctx: &mut Ctx, real: &mut Real, sw: &Sweep) {
             zero.cfg.max_points_in_random_expressions = 6;
             zero.cfg.new_erc_name_probability = 0.0;
             bases.push(("zero-width-config", zero));
+        }
+        // "hollow" bases: everything populated except ONE component that is not an operand of this instruction
+        // (a guard or result stack that is empty while its neighbours are not) -- swept with a thinned operand product
+        if sw.populated_too && !sw.only_missing {
+            for c in HOLLOWABLE.iter() {
+                // a documented operand is never hollowed (that is the operand-missing sweep); a stack that the
+                // sweep merely varies (e.g. the records below LIST.SET) is: its operand list is left out then
+                if ft.ops.iter().any(|(oc, _)| oc == c) {
+                    continue;
+                }
+                let kept: Vec<Vec<Frag>> = comps.iter().zip(lists.iter()).filter(|((oc, _), _)| oc != c).map(|(_, l)| l.clone()).collect();
+                let thin = thin_lists(&kept, 200);
+                let mut base = populated();
+                hollow(&mut base, *c);
+                let label = format!("hollow-{:?}", c);
+                for_product(&thin, |cur| {
+                    let id = match ctx.take() {
+                        Some(id) => id,
+                        None => return,
+                    };
+                    let mut m0 = base.clone();
+                    for f in cur {
+                        apply(&mut m0, f);
+                    }
+                    exec_case(ctx, real, sw.oracle, id, name, &m0, &label, false);
+                });
+            }
         }
         for (blabel, base) in &bases {
             if !sw.only_missing {
